@@ -1,8 +1,269 @@
-import Drv.Base
-open Lean Pdt
-namespace Drv
+/-
+  Drv/Combine.lean — JSON ops over Model/Combine.lean (property C05).
 
-/-- op handler of the `Combine` layer (stub until the layer is built) -/
-def handleCombine (_op : String) (_j : Json) : Option (Except String Json) := none
+  op "c05":  {"infos": [<info value>…], "steps": [<step>…]}  ->  [<answer per step>…]
+    The initial infos are allocated in order (each with its own objects); info k has identity k.
+    Steps run on one heap, in order; a step answering {"exc": …} leaves the heap as it was.
+      {"k":"finalize","method":s|null,"obj":ref|null,
+       "other":{"own":ref|null,"lr":[ref|null,ref|null]|null,"objs":[ref|null…]|null},
+       "frame":{"cols":[[label,dtype,kind]…],"empty":b}}
+            -> {"res":"plain"|"table","info":ref|null,"warn":[…],"obs":<obs>|null,"shared":[[src,[kinds…]]…]}
+      {"k":"rewrap","info":ref,"frame":…,"kw":{"name":s|null,"dests":[s…]|null,"units":[s…]|null,"transposed":b|null}}
+            -> {"info":ref,"obs":<obs>,"shared":[kinds…]}
+      {"k":"mutate","info":ref,"mut":{"m":"set_unit"|"set_name"|"add_dest"|"add_column"|"set_disp_unit"|"set_fmt",…}} -> "ok"
+      {"k":"consult","info":ref,"frame":…} -> "ok"          (`get_table_info(df)`: `_check_dataframe`)
+      {"k":"observe","info":ref} -> <obs>|null
+      {"k":"shared","a":ref,"b":ref} -> [kinds…]
+  op "c05_select": {"method":s|null} -> "own"|"merge"|"concat"|"own+warn"   (source selection only)
+-/
+import Drv.Base
+import PdtModel.Model.Combine
+open Lean Pdt Pdt.Combine
+namespace Drv.C05
+
+def errName : Err → String
+  | .invalidTableCombine => "InvalidTableCombineError"
+  | .attributeError => "AttributeError"
+  | .invalidNaming => "InvalidNamingError"
+  | .columnUnit => "ColumnUnitException"
+  | .valueError => "ValueError"
+  | .keyError => "KeyError"
+
+def warnName : Warn → String
+  | .unknownMethod => "unknown_method"
+  | .fallback => "fallback"
+
+def optStr (j : Json) : Except String (Option Str) :=
+  match j with
+  | .null => pure none
+  | .str s => pure (some s.toList)
+  | _ => throw "expected string or null"
+
+def optStrJ : Option Str → Json
+  | none => Json.null
+  | some s => str s
+
+def optRef (j : Json) : Except String (Option Ref) :=
+  match j with
+  | .null => pure none
+  | _ => do let n ← j.getNat?; pure (some n)
+
+def getOpt (j : Json) (k : String) : Json := (j.getObjVal? k).toOption.getD Json.null
+
+partial def originOfJson (j : Json) : Except String Origin :=
+  match j with
+  | .null => pure .absent
+  | _ => do
+    let loc ← optStr (getOpt j "loc")
+    let op ← optStr (getOpt j "op")
+    let ps ← (← getArr j "parents").mapM originOfJson
+    pure (.node loc ps op)
+
+partial def originToJson : Origin → Json
+  | .absent => Json.null
+  | .node loc ps op =>
+    Json.mkObj [("loc", optStrJ loc), ("parents", arr (ps.map originToJson)), ("op", optStrJ op)]
+
+def strList (j : Json) : Except String (List Str) := do
+  let a ← j.getArr?
+  a.toList.mapM (fun x => do let s ← x.getStr?; pure s.toList)
+
+def kindChar (j : Json) : Except String Char := do
+  let s ← j.getStr?
+  match s.toList with
+  | [c] => pure c
+  | _ => throw "dtype kind must be one character"
+
+def frameOfJson (j : Json) : Except String Frame := do
+  let cols ← (← getArr j "cols").mapM (fun c => do
+    let a ← c.getArr?
+    match a.toList with
+    | [l, d, k] => do
+      let l ← l.getStr?; let d ← d.getStr?; let k ← kindChar k
+      pure (l.toList, d.toList, k)
+    | _ => throw "frame column must be [label, dtype, kind]")
+  let e ← getBool j "empty"
+  pure ⟨cols, e⟩
+
+def stateOfJson (j : Json) : Except String (Option FrameState) :=
+  match j with
+  | .null => pure none
+  | _ => do
+    let cols ← (← getArr j "cols").mapM (fun c => do
+      let a ← c.getArr?
+      match a.toList with
+      | [l, d] => do let l ← l.getStr?; let d ← d.getStr?; pure (l.toList, d.toList)
+      | _ => throw "state column must be [label, dtype]")
+    let e ← getBool j "empty"
+    pure (some ⟨cols, e⟩)
+
+/-- allocate one source info with objects of its own -/
+def allocInfo (h : Heap) (j : Json) : Except String Heap := do
+  let name ← getStr j "name"
+  let dests ← strList (← j.getObjVal? "dests")
+  let origin ← originOfJson (getOpt j "origin")
+  let transposed ← getBool j "transposed"
+  let strict ← getBool j "strict"
+  let last ← stateOfJson (getOpt j "last")
+  let cols ← getArr j "cols"
+  let (sd, d) := h.dsets.alloc dests
+  let (sm, m) := h.tmetas.alloc ⟨name, d, origin, transposed, strict⟩
+  let mut h1 : Heap := { h with dsets := sd, tmetas := sm }
+  let mut es : List (Label × Ref) := []
+  for c in cols do
+    let a ← c.getArr?
+    match a.toList with
+    | [l, u, du, f] =>
+      let l ← l.getStr?; let u ← u.getStr?
+      let du ← optStr du; let f ← optStr f
+      let fr : Option Ref ← match f with
+        | none => pure none
+        | some spec =>
+          let (sf, r) := h1.fmts.alloc spec
+          h1 := { h1 with fmts := sf }
+          pure (some r)
+      let (sc, r) := h1.cols.alloc ⟨u.toList, du, fr⟩
+      h1 := { h1 with cols := sc }
+      es := es ++ [(l.toList, r)]
+    | _ => throw "info column must be [label, unit, display_unit, format]"
+  let (sdict, c) := h1.dicts.alloc es
+  let (si, _) := h1.infos.alloc ⟨m, c, last⟩
+  pure { h1 with dicts := sdict, infos := si }
+
+def obsToJson (o : Obs) : Json :=
+  let anc := match o.origin.ancestors with
+    | .ok xs => Json.mkObj [("ok", arr (xs.map str))]
+    | .error e => exc (errName e)
+  Json.mkObj [("name", str o.name), ("dests", arr (o.dests.map str)), ("origin", originToJson o.origin),
+    ("anc", anc), ("transposed", Json.bool o.transposed), ("strict", Json.bool o.strict),
+    ("cols", arr (o.cols.map fun c => arr [str c.label, str c.unit, optStrJ c.dispUnit, optStrJ c.fmt]))]
+
+def obsJ (h : Heap) (i : Ref) : Json :=
+  match observe h i with
+  | some o => obsToJson o
+  | none => Json.null
+
+def locKind : Loc → String
+  | .dset _ => "dests" | .fmt _ => "format" | .col _ => "column" | .dict _ => "dict"
+  | .tmeta _ => "metadata" | .info _ => "info"
+
+/-- kinds of mutable objects reachable from both infos -/
+def sharedKinds (h : Heap) (a b : Ref) : Json :=
+  let rb := reach h b
+  let ks := ((reach h a).filter (fun x => decide (x ∈ rb))).map locKind
+  arr (ks.eraseDups.map Json.str)
+
+def otherOfJson (j : Json) : Except String Other := do
+  let own ← optRef (getOpt j "own")
+  let lr ← match getOpt j "lr" with
+    | .null => pure none
+    | v => do
+      let a ← v.getArr?
+      match a.toList with
+      | [l, r] => do let l ← optRef l; let r ← optRef r; pure (some (l, r))
+      | _ => throw "lr must have two entries"
+  let objs ← match getOpt j "objs" with
+    | .null => pure none
+    | v => do let a ← v.getArr?; let xs ← a.toList.mapM optRef; pure (some xs)
+  pure ⟨own, lr, objs⟩
+
+def kwOfJson (j : Json) : Except String Kw := do
+  let name ← optStr (getOpt j "name")
+  let dests ← match getOpt j "dests" with | .null => pure none | v => do pure (some (← strList v))
+  let units ← match getOpt j "units" with | .null => pure none | v => do pure (some (← strList v))
+  let tr ← match getOpt j "transposed" with | .null => pure none | v => do pure (some (← v.getBool?))
+  pure ⟨name, dests, units, tr⟩
+
+def mutOfJson (j : Json) : Except String Mut := do
+  let m ← (← j.getObjVal? "m").getStr?
+  match m with
+  | "set_unit" => do pure (.setUnit (← getStr j "col") (← getStr j "unit"))
+  | "set_name" => do pure (.setName (← getStr j "name"))
+  | "add_dest" => do pure (.addDest (← getStr j "d"))
+  | "add_column" => do pure (.addColumn (← getStr j "col") (← getStr j "unit"))
+  | "set_disp_unit" => do pure (.setDispUnit (← getStr j "col") (← getStr j "unit"))
+  | "set_fmt" => do pure (.setFmt (← getStr j "col") (← getStr j "spec"))
+  | _ => throw s!"unknown mutation {m}"
+
+def step (h : Heap) (j : Json) : Except String (Heap × Json) := do
+  let k ← (← j.getObjVal? "k").getStr?
+  match k with
+  | "finalize" =>
+    let method ← optStr (getOpt j "method")
+    let obj ← optRef (getOpt j "obj")
+    let other ← otherOfJson (← j.getObjVal? "other")
+    let fr ← frameOfJson (← j.getObjVal? "frame")
+    match finalize h method obj other fr with
+    | .error e => pure (h, exc (errName e))
+    | .ok (h1, res, w) =>
+      let wj := arr (w.map (fun x => Json.str (warnName x)))
+      match res with
+      | .plain => pure (h1, Json.mkObj [("res", "plain"), ("info", Json.null), ("warn", wj),
+                                       ("obs", Json.null), ("shared", arr [])])
+      | .table i =>
+        let srcs := match selectSources method other with
+          | .ok (src, _) => (src.filterMap id).eraseDups
+          | .error _ => []
+        let sh := srcs.map (fun s => arr [nat s, sharedKinds h1 i s])
+        pure (h1, Json.mkObj [("res", "table"), ("info", nat i), ("warn", wj), ("obs", obsJ h1 i),
+                              ("shared", arr sh)])
+  | "rewrap" =>
+    let i ← getNat j "info"
+    let fr ← frameOfJson (← j.getObjVal? "frame")
+    let kw ← kwOfJson (← j.getObjVal? "kw")
+    match rewrap h i fr kw with
+    | .error e => pure (h, exc (errName e))
+    | .ok (h1, i') =>
+      pure (h1, Json.mkObj [("info", nat i'), ("obs", obsJ h1 i'),
+                            ("shared", if i' = i then arr ["same"] else sharedKinds h1 i' i)])
+  | "mutate" =>
+    let i ← getNat j "info"
+    let mu ← mutOfJson (← j.getObjVal? "mut")
+    match mutate h i mu with
+    | .error e => pure (h, exc (errName e))
+    | .ok h1 => pure (h1, "ok")
+  | "consult" =>
+    let i ← getNat j "info"
+    let fr ← frameOfJson (← j.getObjVal? "frame")
+    match checkDataframe h i fr with
+    | .error e => pure (h, exc (errName e))
+    | .ok h1 => pure (h1, "ok")
+  | "observe" =>
+    let i ← getNat j "info"
+    pure (h, obsJ h i)
+  | "shared" =>
+    let a ← getNat j "a"
+    let b ← getNat j "b"
+    pure (h, sharedKinds h a b)
+  | _ => throw s!"unknown c05 step {k}"
+
+end Drv.C05
+
+namespace Drv
+open Drv.C05
+
+def handleCombine (op : String) (j : Json) : Option (Except String Json) :=
+  match op with
+  | "c05" => some do
+    let infos ← getArr j "infos"
+    let mut h := Heap.empty
+    for i in infos do
+      h ← allocInfo h i
+    let mut out : List Json := []
+    for s in (← getArr j "steps") do
+      let (h1, a) ← C05.step h s
+      h := h1
+      out := out ++ [a]
+    pure (arr out)
+  | "c05_select" => some do
+    let method ← optStr (getOpt j "method")
+    let probe : Other := ⟨some 0, some (some 1, some 2), some [some 3]⟩
+    pure (match selectSources method probe with
+      | .ok ([some 0], false) => "own"
+      | .ok ([some 0], true) => "own+warn"
+      | .ok ([some 1, some 2], _) => "merge"
+      | .ok ([some 3], _) => "concat"
+      | _ => "?")
+  | _ => none
 
 end Drv
